@@ -33,6 +33,13 @@ const twinNS = "cns"
 
 var twinManifest = pkgw.Manifest{Name: "app", Scopes: []string{"Namespaced", "Cluster"}, Phases: []string{"p1", "p2"}, ConfigProps: map[string]string{"x": "integer"}}
 
+func twinMulti(name string) string {
+	m := twinManifest
+	m.Name = name
+	m.Components = name == "app"
+	return m.YAML()
+}
+
 func twinObj(name, phase, x string) string {
 	y := pkgw.WidgetYAML("Widget", name, phase, x, nil)
 	return strings.Replace(y, "metadata:\n", "metadata:\n  namespace: '{{ if .package.metadata.namespace }}{{ .package.metadata.namespace }}{{ else }}"+twinNS+"{{ end }}'\n", 1)
@@ -43,6 +50,10 @@ var twinImages = map[string]map[string]string{
 	"v2":   {"manifest.yaml": twinManifest.YAML(), "a.yaml.gotmpl": twinObj("a", "p1", "1"), "c.yaml.gotmpl": twinObj("c", "p2", "{{ default 7 .config.x }}")},
 	"name": {"manifest.yaml": twinManifest.YAML(), "n.yaml.gotmpl": twinObj("n-{{ .package.metadata.name }}", "p1", "1")},
 	"bad":  {"manifest.yaml": twinManifest.YAML(), "z.yaml": "kind: [unclosed\n"},
+	// a multi-component image: the root package and two components, selected by spec.component
+	"multi": {"manifest.yaml": twinMulti("app"), "a.yaml.gotmpl": twinObj("root-a", "p1", "1"),
+		"components/frontend/manifest.yaml": twinMulti("frontend"), "components/frontend/f.yaml.gotmpl": twinObj("frontend-f", "p1", "1"),
+		"components/backend/manifest.yaml": twinMulti("backend"), "components/backend/b.yaml.gotmpl": twinObj("backend-b", "p2", "{{ default 3 .config.x }}")},
 }
 
 type twinScenario struct {
@@ -50,10 +61,12 @@ type twinScenario struct {
 	Confs  []string `json:"configs"`
 	Edits  int      `json:"edits"`
 	Pauses int      `json:"pauses"`
+	// Components: values the user may set spec.component to ("" = the root package)
+	Components []string `json:"components"`
 }
 
 func (sc twinScenario) name() string {
-	return fmt.Sprintf("package-twin images=%v configs=%v edits=%d pauses=%d", sc.Images, sc.Confs, sc.Edits, sc.Pauses)
+	return fmt.Sprintf("package-twin images=%v configs=%v components=%v edits=%d pauses=%d", sc.Images, sc.Confs, sc.Components, sc.Edits, sc.Pauses)
 }
 
 func pkgKeyOf(cluster bool) kmodel.Key {
@@ -151,6 +164,24 @@ func twinSystem(sc twinScenario) *world.System {
 						return nil
 					}})
 				}
+				curComp, _ := pkg.Content["spec"].(map[string]any)["component"].(string)
+				for _, comp := range sc.Components {
+					if comp == curComp {
+						continue
+					}
+					comp := comp
+					evs = append(evs, world.Event{Name: "user:set-component:" + comp, Apply: func(w *world.World) *world.Pass {
+						w.Budget["edit"]--
+						both(w, func(c map[string]any) {
+							if comp == "" {
+								delete(c["spec"].(map[string]any), "component")
+							} else {
+								c["spec"].(map[string]any)["component"] = comp
+							}
+						})
+						return nil
+					}})
+				}
 				for _, cn := range sc.Confs {
 					raw := configs[cn]
 					if raw == config {
@@ -212,6 +243,7 @@ func twinScenarios(quick bool) []twinScenario {
 		{Images: []string{"v1", "v2", "name", "bad"}, Confs: []string{"none", "x1"}, Edits: 2},
 		{Images: []string{"v1", "v2", "missing"}, Confs: []string{"none", "x2", "bad"}, Edits: 2, Pauses: 1},
 	}
+	out = append(out, twinScenario{Images: []string{"multi", "v1"}, Confs: []string{"none", "x1"}, Components: []string{"", "frontend", "backend", "nope"}, Edits: 2})
 	if !quick {
 		out = append(out, twinScenario{Images: []string{"v1", "v2", "name", "bad", "missing"}, Confs: []string{"none", "x1", "x2", "bad"}, Edits: 3, Pauses: 2})
 	}
@@ -220,7 +252,7 @@ func twinScenarios(quick bool) []twinScenario {
 
 func runTwin(o checks.Opts) *report.Report {
 	rep := report.New("C16", "cluster-twin")
-	rep.Rule = "lockstep explicit-state BFS: Package ns/p and ClusterPackage p on the same images (manifests of both scopes) and configs, every event (reconcile of both controllers, image / config edit, pause / unpause) applied to both; after every event the two project equally: conditions with reason and observedGeneration, whether an unpacked hash is recorded, the ObjectDeployment's paused flag and its template by phase (object names, rendered spec value, label count)"
+	rep.Rule = "lockstep explicit-state BFS: Package ns/p and ClusterPackage p on the same images (manifests of both scopes) and configs, every event (reconcile of both controllers, image / config / component edit on a multi-component image, pause / unpause) applied to both; after every event the two project equally: conditions with reason and observedGeneration, whether an unpacked hash is recorded, the ObjectDeployment's paused flag and its template by phase (object names, rendered spec value, label count)"
 	scs := twinScenarios(o.Quick())
 	rep.Bounds["systems"] = len(scs)
 	for i, sc := range scs {
